@@ -6,7 +6,8 @@
 open Common
 open Model
 
-let w = Zar.of_int 64
+(* word size of the build that answered: 64, or 32 when the answer carries the token W20 (force_bits="32" run) *)
+let wr = ref (Zar.of_int 64)
 let usz s = Zar.of_string_base 16 s
 let cc = function Lt -> 'L' | Eq -> 'E' | Gt -> 'G'
 let bc b = if b then '1' else '0'
@@ -24,28 +25,25 @@ let ord8 e c = [ bc e; bc (not e); cc c; cc c; bc (c = Lt); bc (c <> Gt); bc (c 
 (* ---------------------------------------------------------------- integers *)
 type ival = { iv : Zar.t; r : repr; hash : string; cap : Zar.t; n : Zar.t; inl : bool }
 
-let le_bytes_hex (ws : Zar.t list) =
-  String.concat "" (List.map (fun x ->
-    let b = Buffer.create 16 in
-    for i = 0 to 7 do
-      Buffer.add_string b (Printf.sprintf "%02x" (Zar.to_int (Zar.logand (Zar.shift_right x (8 * i)) (Zar.of_int 255))))
-    done; Buffer.contents b) ws)
-
-(* hasher input the model predicts: sign discriminant (isize), length prefix (usize), the words' bytes *)
-let hash_token (r : repr) =
-  match hash_input r with
-  | d :: l :: ws -> Printf.sprintf "i%s.u%s.b%s" (hx d) (hx l) (le_bytes_hex ws)
-  | _ -> "?"
+(* the calls Hash::hash makes, as the extracted model (Int/HashSeqModel.v over the REGENERATED step list of
+   DashuGen.HashGen) predicts them for a little-endian target with words of !wr bits; printed in the notation of the
+   recording hasher of the harness: i<isize> u<usize> b<bytes of one write> *)
+let call_token = function
+  | HWriteIsize n -> "i" ^ hx n
+  | HWriteUsize n -> "u" ^ hx n
+  | HWrite bs -> "b" ^ String.concat "" (List.map (fun b -> Printf.sprintf "%02x" (Zar.to_int b)) bs)
+let calls_token cs = String.concat "." (List.map call_token cs)
+let hash_token (r : repr) = calls_token (hash_fields true !wr r repr_hash_steps_gen)
 
 let read_int what expected toks =
   match toks with
   | [ sv; scap; sn; sinl; h ] ->
       let v = z sv and cap = z scap and n = usz sn and inl = (sinl = "1") in
       (match expected with Some e when not (Zar.equal e v) -> raise (Bad (what ^ "-value-" ^ hx e)) | _ -> ());
-      if not (layout_ok w v cap n inl) then raise (Bad (what ^ "-layout"));
-      let r = repr_of_layout cap inl (words_of w n (Zar.abs v)) in
-      if not (canonicalb w r) then raise (Bad (what ^ "-noncanonical"));
-      if not (Zar.equal (rvalue w r) v) then raise (Bad (what ^ "-model-value"));
+      if not (layout_ok !wr v cap n inl) then raise (Bad (what ^ "-layout"));
+      let r = repr_of_layout cap inl (words_of !wr n (Zar.abs v)) in
+      if not (canonicalb !wr r) then raise (Bad (what ^ "-noncanonical"));
+      if not (Zar.equal (rvalue !wr r) v) then raise (Bad (what ^ "-model-value"));
       { iv = v; r; hash = h; cap; n; inl }
   | _ -> raise (Bad (what ^ "-shape"))
 
@@ -74,8 +72,9 @@ let judge_int signed args got =
             let ae = Zar.equal (Zar.abs a.iv) (Zar.abs b.iv) in
             let want = str (ord8 e c @ [ cc ac; bc ae ] @ (if signed then [ cc ac; cc ac; bc ae; bc ae ] else [])) in
             let me = repr_eq a.r b.r in
-            let mc = if signed then ibig_cmp w a.r b.r else ubig_cmp w a.r b.r in
-            let mac = abs_cmp w a.r b.r and mae = abs_eq a.r b.r in
+            (* as-is = the bodies REGENERATED from integer/src/cmp.rs (DashuGen.HashGen; proved equal to the hand models) *)
+            let mc = if signed then ibig_cmp_gen !wr a.r b.r else typed_cmp_gen (as_typed !wr a.r) (as_typed !wr b.r) in
+            let mac = abs_cmp !wr a.r b.r and mae = abs_eq a.r b.r in
             let asis = str (ord8 me mc @ [ cc mac; bc mae ] @ (if signed then [ cc mac; cc mac; bc mae; bc mae ] else [])) in
             if asis <> g then same := false;
             if want <> g && !bad = None then bad := Some (Printf.sprintf "pair%d%d=%s" i j want);
@@ -183,7 +182,7 @@ let judge_flt args got =
             let what = "v" ^ string_of_int i in
             (* invariants of the representation: normalised, canonical significand *)
             if not (normalizedb bz f) then raise (Bad (what ^ "-not-normalised"));
-            if not (layout_ok w f.fsig (z scap) (usz sn) (sinl = "1")) then raise (Bad (what ^ "-significand-layout"));
+            if not (layout_ok !wr f.fsig (z scap) (usz sn) (sinl = "1")) then raise (Bad (what ^ "-significand-layout"));
             (match expected_value bb asig aexp (usz aprec) route p with
              | Some (sb, e, ex) ->
                  let inf_e = f_is_inf e and inf_f = f_is_inf f in
@@ -263,7 +262,7 @@ let judge_rat is_rbig args got =
             if is_rbig && not (reducedb q) then raise (Bad (what ^ "-not-reduced"));
             let ni = read_int (what ^ "-num") None [ sn; c1; n1; i1; "" ] in
             let di = read_int (what ^ "-den") None [ sd; c2; n2; i2; "" ] in
-            if is_rbig && h <> hash_token ni.r ^ "." ^ hash_token di.r then raise (Bad (what ^ "-hash-input"));
+            if is_rbig && h <> calls_token (rbig_hash true !wr ni.r di.r) then raise (Bad (what ^ "-hash-input"));
             (q, h)
         | _ -> raise (Bad "shape")) in
       let pairs = drop (9 * k) toks in
@@ -296,20 +295,22 @@ let judge_rat is_rbig args got =
 
 (* ---------------------------------------------------------------- round 3: single operations, the digit estimate *)
 let zero_cap = Zar.zero
+let rec nat_of_int n acc = if n <= 0 then acc else nat_of_int (n - 1) (S acc)
+let fuel = nat_of_int 100000 O
 
 (* what the Repr-level model predicts of a result: value, length in words, inline or heap *)
-let shape (r : repr) = (rvalue w r, rlen r, (match r with Inline _ -> true | Heap _ -> false))
+let shape (r : repr) = (rvalue !wr r, rlen r, (match r with Inline _ -> true | Heap _ -> false))
 
 let judge_iop args got =
   match args with
   | [ op; sa; sb ] ->
       let a = z sa and b = z sb in
-      let ra = store_fit w zero_cap a and rb = store_fit w zero_cap b in
-      let rua = store_fit w zero_cap (Zar.abs a) and rub = store_fit w zero_cap (Zar.abs b) in
-      let divf f = (match ibig_divform w f zero_cap ra rb with Ok rs -> `Vals rs | Panic _ -> `Panic | _ -> `Other),
+      let ra = store_fit !wr zero_cap a and rb = store_fit !wr zero_cap b in
+      let rua = store_fit !wr zero_cap (Zar.abs a) and rub = store_fit !wr zero_cap (Zar.abs b) in
+      let divf f = (match ibig_divform !wr f zero_cap ra rb with Ok rs -> `Vals rs | Panic _ -> `Panic | _ -> `Other),
                    (match form_spec f a b with Ok vs -> `Vals vs | Panic _ -> `Panic | _ -> `Other) in
       let one r v = (`Vals [ r ], `Vals [ v ]) in
-      let bitf f o spec = one (ibig_bit w f o zero_cap ra rb) (spec a b) in
+      let bitf f o spec = one (ibig_bit !wr f o zero_cap ra rb) (spec a b) in
       let own = function "vv" -> VV | "vr" -> VR | "rv" -> RV | "rr" -> RR | s -> raise (Bad ("form-" ^ s)) in
       let shamt () = if Zar.sign b < 0 || Zar.numbits b > 20 then raise (Bad "shift-amount") else Zar.to_int b in
       let model, spec =
@@ -318,20 +319,57 @@ let judge_iop args got =
         | "diveu" -> divf FDivEuclid | "remeu" -> divf FRemEuclid | "divremeu" -> divf FDivRemEuclid
         | "udivrem" | "udiv" | "urem" ->
             if Zar.sign b = 0 then
-              ((match ubig_div_rem w zero_cap rua rub with Panic _ -> `Panic | _ -> `Other), `Panic)
+              ((match ubig_div_rem !wr zero_cap rua rub with Panic _ -> `Panic | _ -> `Other), `Panic)
             else begin
               let q = Zar.div (Zar.abs a) (Zar.abs b) and r = Zar.rem (Zar.abs a) (Zar.abs b) in
               match op with
-              | "udivrem" -> ((match ubig_div_rem w zero_cap rua rub with Ok (x, y) -> `Vals [ x; y ] | _ -> `Other), `Vals [ q; r ])
-              | "udiv" -> ((match ubig_div w zero_cap rua rub with Ok x -> `Vals [ x ] | _ -> `Other), `Vals [ q ])
-              | _ -> ((match ubig_rem w zero_cap rua rub with Ok x -> `Vals [ x ] | _ -> `Other), `Vals [ r ])
+              | "udivrem" -> ((match ubig_div_rem !wr zero_cap rua rub with Ok (x, y) -> `Vals [ x; y ] | _ -> `Other), `Vals [ q; r ])
+              | "udiv" -> ((match ubig_div !wr zero_cap rua rub with Ok x -> `Vals [ x ] | _ -> `Other), `Vals [ q ])
+              | _ -> ((match ubig_rem !wr zero_cap rua rub with Ok x -> `Vals [ x ] | _ -> `Other), `Vals [ r ])
             end
-        | "not" -> one (ibig_not w false zero_cap ra) (Zar.lognot a)
-        | "notref" -> one (ibig_not w true zero_cap ra) (Zar.lognot a)
-        | "shr" -> one (ibig_shift w HShr zero_cap ra b) (Zar.shift_right a (shamt ()))
-        | "shrref" -> one (ibig_shift w HShrRef zero_cap ra b) (Zar.shift_right a (shamt ()))
-        | "shl" -> one (ibig_shift w (HShl false) zero_cap ra b) (Zar.shift_left a (shamt ()))
-        | "shlref" -> one (ibig_shift w (HShl true) zero_cap ra b) (Zar.shift_left a (shamt ()))
+        (* round 4: the remaining producers; the model may run out of fuel or hit a debug assertion of its own (never
+           observed): then it is `Other` and counts as asis=diff, the verdict is still taken against the specification *)
+        | "gcd" | "ugcd" ->
+            if Zar.sign a = 0 && Zar.sign b = 0 then
+              ((match repr_gcd !wr fuel zero_cap ra rb with Panic _ -> `Panic | _ -> `Other), `AnyPanic)
+            else ((match repr_gcd !wr fuel zero_cap (if op = "gcd" then ra else rua) (if op = "gcd" then rb else rub) with Ok r -> `Vals [ r ] | _ -> `Other),
+                  `Vals [ Zar.gcd a b ])
+        | "gcdext" | "ugcdext" ->
+            if Zar.sign a = 0 && Zar.sign b = 0 then
+              ((match repr_gcd_ext !wr fuel zero_cap ra rb with Panic _ -> `Panic | _ -> `Other), `AnyPanic)
+            else
+              let xa = if op = "gcdext" then ra else rua and xb = if op = "gcdext" then rb else rub in
+              ((match repr_gcd_ext !wr fuel zero_cap xa xb with Ok rs -> `Vals rs | _ -> `Other), `Bezout (rvalue !wr xa, rvalue !wr xb))
+        | "sqrt" ->
+            if Zar.sign a < 0 then ((match repr_sqrt !wr fuel zero_cap ra with Panic RootNegative -> `Panic | _ -> `Other), `PanicClass "RootNegative")
+            else ((match repr_sqrt !wr fuel zero_cap ra with Ok r -> `Vals [ r ] | _ -> `Other), `Vals [ Zar.sqrt a ])
+        | "sqrtrem" ->
+            let x = Zar.abs a in
+            let r = Zar.sqrt x in
+            ((match repr_sqrt_rem !wr fuel zero_cap rua with Ok rs -> `Vals rs | _ -> `Other), `Vals [ r; Zar.sub x (Zar.mul r r) ])
+        | "nthroot" | "unthroot" ->
+            let x = if op = "nthroot" then a else Zar.abs a in
+            let rx = if op = "nthroot" then ra else rua in
+            if Zar.sign b = 0 then ((match repr_nth_root !wr fuel zero_cap rx b with Panic RootZeroth -> `Panic | _ -> `Other), `PanicClass "RootZeroth")
+            else if Zar.sign x < 0 && Zar.is_even b then
+              ((match repr_nth_root !wr fuel zero_cap rx b with Panic RootNegative -> `Panic | _ -> `Other), `PanicClass "RootNegative")
+            else begin
+              let n = shamt () in
+              let rt = Zar.root (Zar.abs x) n in
+              ((match repr_nth_root !wr fuel zero_cap rx b with Ok r -> `Vals [ r ] | _ -> `Other), `Vals [ if Zar.sign x < 0 then Zar.neg rt else rt ])
+            end
+        | "pow" | "upow" ->
+            let x = if op = "pow" then a else Zar.abs a in
+            let rx = if op = "pow" then ra else rua in
+            let e = shamt () in
+            (* [cap]: the model's flag "the buffer of the power has room for the final shift" changes the capacity only *)
+            ((match repr_ipow !wr false zero_cap rx b with Ok r -> `Vals [ r ] | _ -> `Other), `Vals [ Zar.pow x e ])
+        | "not" -> one (ibig_not !wr false zero_cap ra) (Zar.lognot a)
+        | "notref" -> one (ibig_not !wr true zero_cap ra) (Zar.lognot a)
+        | "shr" -> one (ibig_shift !wr HShr zero_cap ra b) (Zar.shift_right a (shamt ()))
+        | "shrref" -> one (ibig_shift !wr HShrRef zero_cap ra b) (Zar.shift_right a (shamt ()))
+        | "shl" -> one (ibig_shift !wr (HShl false) zero_cap ra b) (Zar.shift_left a (shamt ()))
+        | "shlref" -> one (ibig_shift !wr (HShl true) zero_cap ra b) (Zar.shift_left a (shamt ()))
         | _ -> (
             match String.index_opt op '_' with
             | Some i -> (
@@ -345,6 +383,27 @@ let judge_iop args got =
       in
       let cls = "iop-" ^ (match String.index_opt op '_' with Some i -> String.sub op 0 i | None -> op) in
       (match spec, got with
+       | `AnyPanic, "panic" :: _ -> pass ~extra:(Printf.sprintf "asis=%s cls=%s:panic" (if model = `Panic then "same" else "diff") cls) ()
+       | `AnyPanic, _ -> fail "panic-gcd-of-zeros"
+       | `PanicClass k, "panic" :: c :: _ ->
+           if c = k then pass ~extra:(Printf.sprintf "asis=%s cls=%s:panic" (if model = `Panic then "same" else "diff") cls) () else fail ("panic-" ^ k)
+       | `PanicClass k, _ -> fail ("panic-" ^ k)
+       | `Bezout (xa, xb), "ok" :: toks when List.length toks = 12 ->
+           (* specification of gcd_ext: g = gcd, s * a + t * b = g (the cofactors are not unique: judged by the identity) *)
+           let outs = List.init 3 (fun i ->
+             match take 4 (drop (4 * i) toks) with
+             | [ sv; scap; sn; sinl ] -> read_int ("out" ^ string_of_int i) None [ sv; scap; sn; sinl; "" ]
+             | _ -> raise (Bad "shape")) in
+           let g = List.nth outs 0 and sx = List.nth outs 1 and tx = List.nth outs 2 in
+           let same = (match model with
+             | `Vals rs -> List.length rs = 3 &&
+                 List.for_all2 (fun r o -> let (v, n, inl) = shape r in Zar.equal v o.iv && Zar.equal n o.n && inl = o.inl && canonicalb !wr r) rs outs
+             | _ -> false) in
+           let extra = Printf.sprintf "asis=%s cls=%s:%s" (if same then "same" else "diff") cls (String.concat "-" (List.map lenclass outs)) in
+           if not (Zar.equal g.iv (Zar.gcd xa xb)) then { (fail "gcd") with extra = "want=gcd-" ^ hx (Zar.gcd xa xb) ^ " " ^ extra }
+           else if not (Zar.equal (Zar.add (Zar.mul sx.iv xa) (Zar.mul tx.iv xb)) g.iv) then { (fail "bezout") with extra = "want=s*a+t*b=g " ^ extra }
+           else pass ~extra ()
+       | `Bezout _, _ -> fail "ok-g-s-t"
        | `Panic, "panic" :: c :: _ ->
            let same = (model = `Panic) in
            if c = "DivideBy0" then pass ~extra:(Printf.sprintf "asis=%s cls=%s:panic" (if same then "same" else "diff") cls) ()
@@ -358,13 +417,35 @@ let judge_iop args got =
            (* model fidelity: the composed Repr-level model predicts value, length and inline/heap of every output *)
            let same = (match model with
              | `Vals rs -> List.length rs = List.length outs &&
-                 List.for_all2 (fun r o -> let (v, n, inl) = shape r in Zar.equal v o.iv && Zar.equal n o.n && inl = o.inl && canonicalb w r) rs outs
+                 List.for_all2 (fun r o -> let (v, n, inl) = shape r in Zar.equal v o.iv && Zar.equal n o.n && inl = o.inl && canonicalb !wr r) rs outs
              | _ -> false) in
            let lens = String.concat "-" (List.map lenclass outs) in
            pass ~extra:(Printf.sprintf "asis=%s cls=%s:%s" (if same then "same" else "diff") cls lens) ()
        | `Vals _, _ -> fail "ok-with-every-output"
        | _ -> fail "spec")
   | _ -> fail "iop-args"
+
+(* ipar <u|i> radix x<hex text>: from_str_radix; specification = C07's from_str_radix_spec evaluated through the word-level
+   model (proved equal: C05_parse_is_spec), the Repr-level model predicts value, length and inline flag *)
+let unhex s =
+  let n = (String.length s - 1) / 2 in
+  List.init n (fun i -> Zar.of_int (int_of_string ("0x" ^ String.sub s (1 + 2 * i) 2)))
+let judge_ipar args got =
+  match args with
+  | [ ty; sr; stext ] ->
+      let r = usz sr and text = unhex stext in
+      let m = repr_parse !wr (ty = "i") zero_cap r text in
+      (match m, got with
+       | Ok x, [ "ok"; sv; scap; sn; sinl ] ->
+           let o = read_int "out" (Some (rvalue !wr x)) [ sv; scap; sn; sinl; "" ] in
+           let (v, n, inl) = shape x in
+           let same = Zar.equal v o.iv && Zar.equal n o.n && inl = o.inl && canonicalb !wr x in
+           pass ~extra:(Printf.sprintf "asis=%s cls=ipar-%s:%s" (if same then "same" else "diff") ty (lenclass o)) ()
+       | Ok x, _ -> fail ("ok-" ^ hx (rvalue !wr x))
+       | Err _, "err" :: _ -> pass ~nt:false ~extra:(Printf.sprintf "asis=same cls=ipar-%s:err" ty) ()
+       | Err _, _ -> fail "err"
+       | _, _ -> fail "model-ok-or-err")
+  | _ -> fail "ipar-args"
 
 let dub_base = function "2" -> 2 | "3" -> 3 | "7" -> 7 | "a" -> 10 | "10" -> 16 | "64" -> 100 | "ffff" -> 65535 | s -> raise (Bad ("base-" ^ s))
 
@@ -425,7 +506,7 @@ let judge_fprod args got =
            let f = parse_frepr ssig sexp in
            (* the invariants == relies on *)
            if not (normalizedb bz f) then fail "normalised-result"
-           else if not (layout_ok w f.fsig (z scap) (usz sn) (sinl = "1")) then fail "canonical-significand"
+           else if not (layout_ok !wr f.fsig (z scap) (usz sn) (sinl = "1")) then fail "canonical-significand"
            else begin
              let dx = usz sdx and dy = usz sdy and ly = usz sly in
              let du s = if Zar.equal s s1 then dx else if Zar.equal s s2 then dy else ndigits bz s in
@@ -448,7 +529,14 @@ let judge_fprod args got =
 
 let judge op args got =
   try
+    (* the word-size mark of the integer-level ops *)
+    let got =
+      match List.rev got with
+      | "W20" :: rest -> wr := Zar.of_int 32; List.rev rest
+      | "W40" :: rest -> wr := Zar.of_int 64; List.rev rest
+      | _ -> wr := Zar.of_int 64; got in
     match op with
+    | "ipar" -> judge_ipar args got
     | "fprod" -> judge_fprod args got
     | "iop" -> judge_iop args got
     | "dub" -> judge_dub args got
